@@ -436,8 +436,8 @@ def gen_oct(rng, nsets, nq):
             kind, a, s = rand_box(rng)
         per = rng.randint(0, 1)
         if si == 0 or rng.random() < 0.03:
-            # a single position: the root has no children, the searches start below the root
-            # (finding octree:single-position-search-returns-nothing); first query = the point itself
+            # a single position: the root is a leaf, the walks start at the root itself (fixed defect
+            # octree:single-position-search-returns-nothing); first query = the point itself
             p0 = [a[i] + s[i] * rng.random() for i in range(3)]
             h0 = min(s) * rng.choice([0.0, 0.2, 1.5])
             ops.append("oct new %d %s %s" % (per, " ".join(fb(v) for v in a + s), " ".join(fb(v) for v in p0 + [h0])))
@@ -678,7 +678,7 @@ def run(ctx):
     ctx.assumptions += [
         "Voronoi grids are not covered (C15 not applicable); Octree::get_closest_ngb and the periodic Octree distances are tied by the differential run and the brute-force oracle only (modelled, no theorem beyond octree_search_is_bruteforce, whose covering hypotheses are then assumptions)",
         "AMR traversal theorems (amr_path_sum, amr_tau_account, amr_absorbed_cell_contains_end, amr_segments_in_cells) hold for every grid of well-formed trees (depth <= 10, hence every tree reachable by refinements), every medium, every photon and every loop fuel under RayHyp: positive box sides, start in the half-open box, non-zero direction, DBL_MAX above every wall distance, and no leaf spanning the whole box on a periodic axis (such a leaf is its own neighbour: the code spins with ds = 0); NO 2:1 level balance is needed (set_ngbs stores a same-level or coarser neighbour, a coarser one is always a leaf; amr_neighbours_geometric)",
-        "octree_build_search_partial: non-periodic tree, positions in the half-open box, n >= 2 (a one-position Octree searches below a root without children and returns nothing: finding octree:single-position-search-returns-nothing, generated and flagged by the brute-force oracle; the model mirrors the code); brute force over the STORED indices: that every index < n is stored needs the positions to separate within the 64 levels of the model's recursion fuel (the code recurses without bound, equal positions never separate; generators keep positions distinct)",
+        "octree_build_search_partial: non-periodic tree, positions in the half-open box, any n (fixed defect octree:single-position-search-returns-nothing: one-position trees are generated, the walks start at the leaf root; octree_single_position); brute force over the STORED indices: that every index < n is stored needs the positions to separate within the 64 levels of the model's recursion fuel (the code recurses without bound, equal positions never separate; generators keep positions distinct)",
         "theorems are about exact arithmetic (Nat/Int for keys and traversals, real numbers for the geometric parts); IEEE rounding is not modelled, the tie is the bit-exact differential run on doubles",
         "AMR keys: depth <= 10 and <= 1024 blocks per axis (the widths of the 32+32 bit key); the C++ shifts `cell << 3*level` overflow int beyond that",
         "max_range_is_last / increase_range_next are for cubic bucket grids (sx = sy = sz), the only ones the PointLocations constructor builds; set_max_range is wrong for some non-cubic sizes (Lean counterexample 5x1x3, anchor (2,0,2))",
@@ -771,7 +771,9 @@ MANIFEST = dict(
           "refinement levels and periodic faces (amr_neighbours_geometric). Octree (Model/Octree.lean, bit-exact incl. result "
           "order): pruned get_ngbs / get_ngbs_sphere = brute force over the stored points under the covering hypotheses "
           "(octree_search_is_bruteforce); the tree built by add_position + set_auxiliaries(max) satisfies them for the Euclidean "
-          "distances (octree_build_search_partial); add_position loses no index (octree_add_position_leaves)."),
+          "distances, for every number of positions (octree_build_search_partial); a one-position tree returns its point iff it is in "
+          "range (octree_single_position, false before the get_first_node fix); add_position loses no index "
+          "(octree_add_position_leaves)."),
     note=("Trusted: Lean kernel + propext/Classical.choice/Quot.sound; hand models of the anchored functions tied by the differential run "
           "(doubles as bit patterns, tolerance rel 1e-9, measured bit-exact rate 1.0). Theorems are about exact arithmetic: IEEE "
           "rounding is not modelled. cartesian_segments assumes inverse direction = 1/direction, a non-zero direction and DBL_MAX "
@@ -779,7 +781,7 @@ MANIFEST = dict(
           "Octree::get_closest_ngb and the periodic Octree covering (modelled and compared bit-exactly, brute-force oracle, no theorem); that "
           "every position is stored in the Octree (recursion fuel 64, see assumptions); Voronoi grids (C15 not applicable). The AMR "
           "traversal theorems need no 2:1 level balance; they exclude a leaf spanning a periodic axis (own neighbour, ds = 0 forever). max_range_is_last needs "
-          "the cubic grid PointLocations always builds (Lean counterexample for 5x1x3). Four genuine defects of /repo were exposed by "
-          "this check and are fixed (2fae05a, d8603ab, d8e5613, 39f0cc7; known_findings.txt); their reproducers stay in corpus/C16 and "
+          "the cubic grid PointLocations always builds (Lean counterexample for 5x1x3). Five genuine defects of /repo were exposed by "
+          "this check and are fixed (2fae05a, d8603ab, d8e5613, 39f0cc7 and the one-position Octree walk; known_findings.txt); their reproducers stay in corpus/C16 and "
           "the oracles stay strict."),
     technique="Lean 4 proofs (induction on trees / traversal / loop fuel, omega, linarith, field_simp) + bit-exact differential correspondence + implementation-level oracles")
